@@ -35,6 +35,8 @@ TIDS = {"A": 100, "B": 102, "C": 100, "D": 103}
 SCEN["h9"] = "A:pinit A:init A:abig A:x A:ev0 A:e A:f A:free A:pfini"
 # the program changes its working directory; a second thread starts tracing afterwards
 SCEN["h10"] = "A:pinit A:init A:x A:ev0 A:cd B:init B:x B:ev4 B:e B:f B:free A:e A:f A:free A:pfini"
+# ... the same with the first thread over before the directory changes
+SCEN["h11"] = "A:pinit A:init A:x A:ev0 A:e A:f A:free A:cd B:init B:x B:ev4 B:e B:f B:free A:pfini"
 # three threads of one process, interleaved
 SCEN["h8"] = "A:pinit A:init B:init D:init A:x B:x D:x D:j3000 A:ev8 B:j100 D:j2000 A:f B:e D:e A:e D:f B:f A:f D:free A:free B:free A:pfini"
 
@@ -215,7 +217,7 @@ def seq_of(log):
     pids = []
     idx = 0
     for e in log[start:]:
-        if e[1] in ("+++",):
+        if e[1] in ("+++", "note"):
             continue
         idx += 1
         if "VERIF-END" in e[2]:
@@ -404,7 +406,7 @@ def run_c10(prop, tier):
     try:
         build = Build()
         runner = Runner(build, scratch)
-        scens = ["h1", "h2"] if tier == "quick" else ["h1", "h2", "h3", "h5", "h4a", "h8", "h9", "h10", "r:h1", "r:h3", "q:h1"]
+        scens = ["h1", "h2"] if tier == "quick" else ["h1", "h2", "h3", "h5", "h4a", "h8", "h9", "h10", "h11", "r:h1", "r:h3", "q:h1"]
         if tier != "quick":
             gen = interleavings(1 if tier == "thorough" else 2)
             SCEN.update(gen)
@@ -416,7 +418,7 @@ def run_c10(prop, tier):
         refs = {}
         for sc in scens:
             # the scenario that changes its working directory runs with relative trace directories (as the default "ovni" is)
-            for mode in (modes if sc != "h10" else [("rel", None), ("rel", "tmp")]):
+            for mode in (modes if sc not in ("h10", "h11") else [("rel", None), ("rel", "tmp")]):
                 tag = "%s-%s-%s" % (sc, mode[0], mode[1])
                 r, full, seq = plan(runner, sc, mode, tag)
                 refs[(sc, mode)] = full
@@ -431,23 +433,19 @@ def run_c10(prop, tier):
                         if tier == "quick" and e != FAULTS[s["sc"]][0] and s["sc"] != "write":
                             continue
                         jobs.append((sc, mode, i, s, e, None))
-                # partial completion: every write of the (single-threaded) runtime phase returns a short count once
-                if sc in ("h1", "h2", "h9"):
-                    nw = 0
-                    for i, s in enumerate(seq):
-                        if s["sc"] in WRITES + ("sendfile", "copy_file_range") and not s["args"].startswith(("2,", "-1,")):
-                            try:
-                                if s["sc"] in WRITES and int(s["args"].rsplit(",", 1)[1]) <= 1:
-                                    continue
-                            except ValueError:
-                                pass
-                            nw += 1
-                            for how in (1, 2, 3):
-                                jobs.append((sc, mode, i, s, "SHORT%d:%d" % (nw, how), None))
-                            # the disk fills up during this write: it completes partly and every later write fails with ENOSPC
-                            for how in (1, 2):
-                                jobs.append((sc, mode, i, s, "FULL%d:%d" % (nw, how), None))
-
+                # the same at the system-call level, where stdio's own writes (metadata, relocation copy) are reached too: every
+                # write is cut short once, and - separately - is the write during which the disk fills up
+                for i, s in enumerate(seq):
+                    if s["sc"] in WRITES + ("sendfile", "copy_file_range") and not s["args"].startswith(("2,", "-1,")):
+                        try:
+                            if s["sc"] in ("write", "pwrite64") and int(s["args"].rsplit(",", 1)[1]) <= 1:
+                                continue
+                        except ValueError:
+                            continue
+                        for how in ((2,) if sc.startswith(("g", "r:", "q:")) else (1, 2, 3)):
+                            jobs.append((sc, mode, i, s, "short:%d" % how, None))
+                        for how in (1, 2):
+                            jobs.append((sc, mode, i, s, "full:%d" % how, None))
         def one(j):
             sc, mode, i, s, e, pre = j
             tag = "f%d" % os.getpid()
@@ -457,6 +455,9 @@ def run_c10(prop, tier):
             elif e.startswith("FULL"):
                 r = runner.run(tag, sc, mode, diskfull=e[4:])
                 fired = any("VERIF-DISKFULL" in x[2] for x in r["log"])
+            elif e.startswith(("short:", "full:")):
+                r = runner.run(tag, sc, mode, inject="%s:%d:%s" % (e.split(":")[0], s["n"], e.split(":")[1]))
+                fired = any(x[1] == "note" and "VERIF-SHORTENED" in x[2] for x in r["log"])
             else:
                 r = runner.run(tag, sc, mode, inject=(pre + "," if pre else "") + "err:%d:%s" % (s["n"], e))
                 fired = sum(1 for x in r["log"] if "(INJECTED)" in x[4]) == (2 if pre else 1)
@@ -504,7 +505,7 @@ def run_c10(prop, tier):
                 rc, msg = runner.emulate(r["final"])
                 if rc != 0:
                     probs.append("returned normally but ovniemu rejects the final trace: %s" % msg[-120:])
-            return ("normal", probs, seq_of(r["log"]) if (pre is None and not e.startswith(("SHORT", "FULL"))) else None)
+            return ("normal", probs, seq_of(r["log"]) if (pre is None and not e.startswith(("SHORT", "FULL", "short:", "full:"))) else None)
         outcomes = {}
 
         def collect(jobs, results, second):
@@ -534,11 +535,11 @@ def run_c10(prop, tier):
         ctx.cov["distinct_nontrivial"] = len(jobs)
         ctx.cov["outcomes"] = outcomes
         ctx.cov["rule"] = ("the same scenarios and modes as C09 plus OVNI_TMPDIR naming the trace directory; every runtime-phase syscall (mkdir, openat, write, read, close, newfstatat, getdents64, unlink, rmdir) "
-                           "fails once with each errno of its class (EACCES/ENOSPC/EMFILE/EIO, EINTR for write; deep plan: and, when the runtime survives that, every later call fails once more), and every write() of the single-threaded scenarios completes partly once "
-                           "(1 byte, half, all but one byte; link-level interposition in the driver) and, separately, is the write during which the disk fills up (partial, then ENOSPC on every later write); a scenario that changes its working directory before a second thread starts, with relative directories and getcwd() failing; oracle: abort with a diagnostic, or normal return with a complete "
+                           "fails once with each errno of its class (EACCES/ENOSPC/EMFILE/EIO, EINTR for write; deep plan: and, when the runtime survives that, every later call fails once more), and every call that moves data into a file (write, pwrite64, writev, sendfile, copy_file_range - stdio's own writes included) is cut short once "
+                           "(1 byte, half, all but one byte; by the tracer, at the system-call level) and, separately, is the call during which the disk fills up (cut short, then ENOSPC on every later write); a scenario that changes its working directory before a second thread starts, with relative directories and getcwd() failing; oracle: abort with a diagnostic, or normal return with a complete "
                            "valid final trace accepted by ovniemu; in both cases no temporary file is removed while its final copy is incomplete")
         ctx.sample({"scenario": "h2", "mode": ["tmpdir", "obs-first"], "fault": "ENOSPC on the 2nd write of the relocation copy of stream.obs"})
-        ctx.assumptions += ["single faults (deep plan: pairs whose first fault is survived); stdio's own write loop (relocation copy) is not interposed",
+        ctx.assumptions += ["single faults (deep plan: pairs whose first fault is survived); short counts and the full disk are produced at the system-call level, so stdio's own writes are reached too",
                             "error injection (harness/killat.c, ptrace): the call does not execute and returns -errno"]
         return ctx.finish()
     finally:
